@@ -18,15 +18,17 @@ TECH = {
     "C05": "constant-table extraction checked against a lexicon learned from "
            "the repository's own .puml corpus; must-pass-through on the CFG "
            "for placeholder sinks; taint of the label value",
-    "C07": "path-condition rule on the SCC loop, def-use + ownership rules "
-           "on the loop-extraction orchestration",
+    "C07": "path-condition rule on the SCC loop, def-use + ownership "
+           "(may-alias escape) rules on the loop-extraction orchestration, "
+           "writer/reader set-dominance on the Loop record's fields",
     "C08": "loop-carried accumulator dataflow, emptiness lattice on "
            "list-of-lists, def-use field pairing, recursion-scheme rule",
     "C09": "taint of the hash argument, SQLAlchemy builder abstract "
            "interpretation to normal forms, finite-ordering evaluation of "
            "the extracted window predicate, paging arithmetic def-use",
-    "C10": "who-may-call dominance in the call graph, exception-handler CFG "
-           "rule, def-use skeleton of the duplicate filter",
+    "C10": "who-may-call dominance in the call graph, who-may-mutate "
+           "enumeration on the pending list, exception-handler CFG rule, "
+           "def-use + dominance skeleton of the duplicate filter",
     "C11": "CFG dominance of cleaning over use, SQLAlchemy builder abstract "
            "interpretation (frame condition on DELETE/UPDATE), finite-"
            "ordering evaluation of the window predicate, sibling cross-check",
@@ -41,7 +43,8 @@ TECH = {
            "abstract interpreter; per-write re-run-safety obligations "
            "(delete-before-insert dominance, link rows follow node deletes)",
     "C16": "abstract interpretation of time arithmetic over linear forms "
-           "with exact rationals and a float-exactness kind",
+           "with exact rationals, a float-exactness kind and an interval "
+           "error bound; string-splitting semantics for the ISO text",
 }
 
 TEXT = {
@@ -49,8 +52,11 @@ TEXT = {
            "the diagram builder consumes is produced on every path before it "
            "is consumed, the operator vocabulary is total along the hand-off "
            "tables, ingestion pairs successors/predecessors correctly, the "
-           "dummy start is always added. Decides the plumbing, not the "
-           "heuristics' language inclusion.",
+           "dummy start is always added, every phase reaches every loop body, "
+           "the phases after ingestion run on a deep copy of the model "
+           "(may-alias analysis), event-type lists reach the multiset they "
+           "are compared with without losing repetitions. Decides the "
+           "plumbing, not the heuristics' language inclusion.",
     "C04": "Decides the four structural premises that make chunked learning "
            "equal one-shot learning at model level: stale-flag typestate on "
            "every write of the successor sets, symmetric total "
@@ -61,17 +67,27 @@ TEXT = {
            "every emitted keyword occurs in the repository's own corpus with "
            "matching open/close pairing, the fixed frame, that every internal "
            "placeholder has a sink executed before the writer, and that "
-           "labels are untouched event types. Block closure as a function of "
-           "graph shape is not decided.",
+           "labels are untouched event types, copies of diagram nodes carry "
+           "every field, the per-path lists of a logic block rotate in "
+           "lock-step, separators / block ends are connected per branch, the "
+           "output file is opened only after the text exists. Block closure "
+           "as a function of graph shape is not decided.",
     "C07": "Decides the recursion scheme of loop extraction (every cyclic "
            "SCC replaced, body decomposed recursively on a private copy, "
-           "parent rewired). Classification of loop components is "
-           "value-dependent and not decided.",
+           "parent rewired and pruned from its root, loop components keep "
+           "their role across hand-offs, a component revised after "
+           "classification is revised before any phase reads it, carving "
+           "the body cuts only loop-back and boundary edges). Classification "
+           "of loop components is value-dependent and not decided.",
     "C08": "Decides the structural clauses of the sequencing rules: overlap "
            "chains compare against the running maximum end, no empty group "
            "reaches the sorter, one PV event per span with fields from the "
-           "documented source, post-order linking skeleton, ordering keys, "
-           "rename rule.",
+           "documented source, post-order linking skeleton, ordering keys "
+           "(members sorted before groups, groups keyed by their first "
+           "member), both sequencers work on the prior-information groups, "
+           "rename rule, options forwarded from the config, every "
+           "well-formed trace of a stream is sequenced, the end time is "
+           "rendered as the UTC instant it denotes.",
     "C09": "Decides that the shape hash sees span types and structure only "
            "with sibling order normalised, whole trees are fetched per "
            "batch, paging tiles the root table, one representative per "
@@ -79,36 +95,61 @@ TEXT = {
            "on all orderings of start<=end against the bounds.",
     "C10": "Decides the structure that makes ingestion idempotent: unique "
            "key, every insert path passes the duplicate-recovering wrapper, "
-           "handler shape, final flush, threshold, filter skeleton.",
+           "handler shape, final flush, threshold, the pending list keeps "
+           "arrival order (who-may-mutate), filter skeleton (first "
+           "occurrence kept, stored ids looked up on every path to the "
+           "retry, links rebuilt from the survivors), record/link field "
+           "mapping incl. agreement of the link guard with the stored "
+           "parent id.",
     "C11": "Decides that cleaning dominates every use, deletes whole traces "
            "only, selects dangling parents correctly, the window deletion is "
            "the complement of 'some span starts or ends inside' on all "
-           "orderings, name propagation from the root row, no orphan links.",
+           "orderings, name propagation from the root row, no orphan links, "
+           "the window's ends are the min start / max end over every saved "
+           "span and nothing else moves them, no phantom parent link.",
     "C12": "Decides sort-key = group-key agreement, in-order consumption of "
-           "nested lazy groups along every consumer chain, session scope of "
-           "yields, filter algebra, child-link joins.",
+           "nested lazy groups along every consumer chain (stream variables "
+           "identified by how they are bound), a broken trace is skipped "
+           "without ending the stream, session scope of yields, filter "
+           "algebra, child-link joins.",
     "C13": "Only the skip/validation clause: a record that fails validation "
            "is skipped per record without aborting the stream, the three "
-           "field tables agree, exactly-one-of validators. Agreement of the "
+           "field tables agree, exactly-one-of validators, a yielded span is "
+           "the one built from the current record, the input stream is never "
+           "rewound between two yields, file iteration skeleton. Agreement "
+           "of the "
            "generated jq program with the documented flattening is NOT "
            "decided (needs execution).",
     "C14": "Decides the plumbing: one learner fed by either arm with the "
            "same model arguments, save keys = load keys = type fields, "
-           "values survive JSON, an exhausted generator never reaches the "
-           "learner, the mapping config reaches the loader.",
+           "values survive JSON and the loader's validation model passes them "
+           "through unchanged, a record is rejected only for a missing key, "
+           "an exhausted generator never reaches the learner, the mapping "
+           "config reaches saver and loader, file listings take paths "
+           "literally.",
     "C15": "Enumerates every persistent write a run performs and decides a "
            "re-run-safety obligation for each (hash rows cleared before "
            "insert, link rows deleted with their nodes, run-time tables "
-           "temporary, inserts behind the duplicate wrapper, no reset on the "
-           "no-ingest arm, files opened for overwrite).",
+           "temporary, inserts behind the duplicate wrapper whose recovery is "
+           "complete, no reset on the no-ingest arm, files opened for "
+           "overwrite, the time window derives from this run's ingestion "
+           "only).",
     "C16": "Decides component accounting of both conversions over S seconds "
-           "+ F microseconds: each component contributes exactly once at the "
-           "right scale, no inexact float reaches the ns result, UTC zone, "
-           "fixed-width order-preserving format that the reader parses.",
+           "+ F microseconds (+ R sub-microsecond ns on the ns side, D "
+           "fraction digits on the string side): each component contributes "
+           "exactly once at the right scale, no inexact float reaches the ns "
+           "result, the float error of ns->seconds stays below half a "
+           "microsecond, seconds and microseconds are rounded together, UTC "
+           "zone, fixed-width order-preserving format that the reader "
+           "parses, no memoisation on datetime equality.",
 }
 
 NOTE = ("Static analysis only (ast over /repo's working tree, nothing "
-        "imported or executed). Trusted: CPython's parser, the name/class "
+        "imported or executed). The tree is first brought to a normal form "
+        "by behaviour-preserving rewrites (parameter / function names "
+        "alpha-normalised to the pinned signatures, keyword arguments of "
+        "package calls positionalised, new single-use helpers inlined). "
+        "Trusted: CPython's parser, the name/class "
         "resolution rules of sa/core.py + sa/callgraph.py, the CFG of "
         "sa/cfg.py, and the API semantics tables of sa/sqlabs.py / "
         "sa/linform.py. Decides the stated structural clauses, not the "
